@@ -557,11 +557,12 @@ theorem mkCount_append (a b : List (Act P)) : mkCount (a ++ b) = mkCount a + mkC
 
 theorem plan_mkCount (cmd : Cmd P) (n : Nat) (i : Input P) : mkCount (plan cmd n i) = planTemps cmd i := by
   unfold plan planTemps
-  cases effKind cmd.mode i.kind <;> cases cmd.mode <;> simp [mkCount]
+  cases cmd.depsOnly <;> cases effKind cmd.mode i.kind <;> cases cmd.mode <;> simp [mkCount]
 
 theorem plan_WF (cmd : Cmd P) (n : Nat) (i : Input P) : WF n (plan cmd n i) = true := by
   unfold plan
-  cases effKind cmd.mode i.kind <;> cases cmd.mode <;> simp [WF, Ref.ok] <;> (try cases cmd.out <;> simp [Ref.ok]) <;> omega
+  cases cmd.depsOnly <;> cases effKind cmd.mode i.kind <;> cases cmd.mode <;> simp [WF, Ref.ok] <;>
+    (try cases cmd.out <;> simp [Ref.ok]) <;> omega
 
 theorem compileLoop_WF (cmd : Cmd P) (n : Nat) (l : List (Input P)) : WF n (compileLoop cmd n l) = true := by
   induction l generalizing n with
